@@ -237,8 +237,13 @@ def logical(ctx, depth):
         return E(("lconst", d(st.integers(0, 1))), 0, 0, True, False, {"lconst"})
     if op == "cmp":
         rel = d(st.sampled_from(["lt", "le", "eq", "ge", "gt", "ne"]))
-        a = numeric(ctx, depth - 1, 2 if "quadcmp" in al else 1)
-        b = numeric(ctx, depth - 1 if d(st.booleans()) else 0, 1)
+        if d(st.integers(0, 5)) == 0 and any(v["int"] for v in ctx.vars):
+            # an integer-valued body against a fractional constant: the roundings of <, <=, >=, > differ exactly here
+            a = numeric(ctx, depth - 1, 1, want_int=True)
+            b = const_e(d(st.sampled_from([F(1, 2), F(5, 2), F(-3, 2), F(3, 2), F(-1, 2), F(7, 4), F(1, 4)])))
+        else:
+            a = numeric(ctx, depth - 1, 2 if "quadcmp" in al else 1)
+            b = numeric(ctx, depth - 1 if d(st.booleans()) else 0, 1)
         if d(st.integers(0, 9)) == 0:
             a, b = b, a
         return E(("cmp", rel, a.t, b.t), 0, 0, True, a.nbprod or b.nbprod, a.ops | b.ops | {"cmp_" + rel})
